@@ -76,11 +76,11 @@ func ZZC11Messages() {
 	for _, d := range ru.Diags {
 		if d.Code == "PKGO01" {
 			nT++
-			nd.Assert(strings.HasSuffix(d.Msg, "Allowed packages: "+wantT+"\n"), "PKGO01 text lists the allowed packages in written order under every map iteration order")
+			nd.Assert(strings.Contains(d.Msg, "Allowed packages: "+wantT+"\n"), "PKGO01 text lists the allowed packages in written order under every map iteration order")
 		}
 		if d.Code == "PKGO02" {
 			nF++
-			nd.Assert(strings.HasSuffix(d.Msg, "Allowed packages: "+wantF+"\n"), "PKGO02 text lists the allowed packages in written order under every map iteration order")
+			nd.Assert(strings.Contains(d.Msg, "Allowed packages: "+wantF+"\n"), "PKGO02 text lists the allowed packages in written order under every map iteration order")
 		}
 	}
 	nd.Assert(nT == 1 && nF == 1, "one PKGO01 and one PKGO02")
